@@ -246,7 +246,11 @@ def drv_tt_op(doc, args, inst):
             we = wf_errors(r)
             if we:
                 msgs.append('result not well formed: %s' % we)
-            rf = r.full()
+            try:
+                rf = r.full()
+            except Exception as e:
+                msgs.append('full() of the returned object raises %s: %s (core dtypes %s)' % (type(e).__name__, str(e)[:120], [str(c.dtype) for c in r.cores]))
+                break
         else:
             rf = r
         if list(rf.shape) != list(ref.shape):
@@ -258,8 +262,13 @@ def drv_tt_op(doc, args, inst):
                 msgs.append('value differs from dense: rel.err %.3e for x=%s y=%s' % (e, descr(x), descr(y)))
         if args.get('check_dtype', True) and isinstance(r, TT):
             want = ref.dtype
+            for a_, b_ in ((x, y), (y, x)):
+                # a one-element tensor is a scalar operand: the train keeps its dtype ("operands' dtype preserved"), although a
+                # *dimensioned* one-element dense tensor takes part in torch's type promotion
+                if isinstance(a_, TT) and tn.is_tensor(b_) and b_.numel() == 1 and b_.dim() > 0 and not (b_.is_complex() and not a_.cores[0].is_complex()):
+                    want = a_.cores[0].dtype
             if any(c.dtype != want for c in r.cores):
-                msgs.append('dtype %s, dense gives %s' % (r.cores[0].dtype, want))
+                msgs.append('dtype %s, expected %s' % ([str(c.dtype) for c in r.cores], want))
         if not unchanged(x, sx):
             msgs.append('first operand was modified by the operation (%s)' % descr(x))
         if not unchanged(y, sy):
